@@ -3,7 +3,7 @@ shard assignment is a deterministic, duplicate-free, in-range function of the va
 import json, os, re
 from lib import fw
 
-MODULES = ["SunriseVerif.Props.C20", "SunriseVerif.Props.C20Field", "SunriseVerif.Witness.C20"]
+MODULES = ["SunriseVerif.Props.C20", "SunriseVerif.Props.C20Field", "SunriseVerif.Props.C20Invert", "SunriseVerif.Witness.C20"]
 SUITE = "rs"
 
 
